@@ -96,6 +96,7 @@ type DefaultLocker struct {
 }
 
 func (defaultLocker *DefaultLocker) Lock(ctx context.Context, accounts Accounts) (Unlock, error) {
+	verifhook.BeforeLock(ctx, "locker", &defaultLocker.mu)
 	defaultLocker.mu.Lock()
 
 	logger := logging.FromContext(ctx).WithFields(map[string]any{
@@ -126,6 +127,7 @@ func (defaultLocker *DefaultLocker) Lock(ctx context.Context, accounts Accounts)
 	}
 
 	releaseIntent := func(ctx context.Context) {
+		verifhook.BeforeLock(ctx, "locker", &defaultLocker.mu)
 		defaultLocker.mu.Lock()
 		defer defaultLocker.mu.Unlock()
 
@@ -143,6 +145,7 @@ func (defaultLocker *DefaultLocker) Lock(ctx context.Context, accounts Accounts)
 	}
 
 	logger.Debugf("Lock not acquired, some accounts are already used, putting in queue")
+	verifhook.Yield(ctx, "lock.enqueue")
 	defaultLocker.intents.Append(intent)
 	defaultLocker.mu.Unlock()
 	verifhook.Yield(ctx, "lock.queued")
@@ -151,6 +154,7 @@ func (defaultLocker *DefaultLocker) Lock(ctx context.Context, accounts Accounts)
 	case <-ctx.Done():
 		// The intent may have been granted at the very moment the context was
 		// cancelled: decide under the mutex, and give back what was granted.
+		verifhook.BeforeLock(ctx, "locker", &defaultLocker.mu)
 		defaultLocker.mu.Lock()
 		select {
 		case <-intent.acquired:
